@@ -775,24 +775,40 @@ pub fn check_main(sc: &DynScenario, o: &CheckOpts) -> i32 {
         }
         violations += 1;
         // minimise the first few signatures only (bounded wall clock)
-        let (case, minimised) = if i < 6 && !c.case.is_null() {
-            minimise(sc, c.profile, &c.case, &c.failure)
+        let (mut case, mut minimised) = if i < 6 && !c.case.is_null() {
+            minimise(sc, c.profile, &c.case, &c.failure, false)
         } else {
             (c.case.clone(), false)
         };
         // final confirmation in a fresh process
         let mut min_detail = None;
-        let confirmed = if case.is_null() {
-            false
-        } else {
-            match exec_in_child(c.profile, sc.id, &case, Duration::from_secs(180)) {
+        let confirm = |case: &Value, min_detail: &mut Option<String>| -> bool {
+            if case.is_null() {
+                return false;
+            }
+            match exec_in_child(c.profile, sc.id, case, Duration::from_secs(180)) {
                 ExecResult::Fail(f) if f.oracle == c.failure.oracle => {
-                    min_detail = Some(f.detail);
+                    *min_detail = Some(f.detail);
                     true
                 }
                 _ => false,
             }
         };
+        let mut confirmed = confirm(&case, &mut min_detail);
+        if !confirmed && i < 6 && !c.case.is_null() {
+            // what was kept depended on the minimiser process's own history
+            // (process-wide state left by earlier candidates): minimise
+            // again with every candidate in a process of its own
+            let (c2, m2) = minimise(sc, c.profile, &c.case, &c.failure, true);
+            case = c2;
+            minimised = m2;
+            confirmed = confirm(&case, &mut min_detail);
+            if !confirmed && minimised {
+                case = c.case.clone();
+                minimised = false;
+                confirmed = confirm(&case, &mut min_detail);
+            }
+        }
         let run_txt = if c.run == u64::MAX {
             "extra".to_string()
         } else {
@@ -941,9 +957,10 @@ fn attribute_crash(profile: Profile, id: &str, tier: Tier, seed: u64, run: u64) 
 
 /// Greedy deterministic minimisation: keep a candidate only if the same
 /// oracle and class of the same property still fail.
-fn minimise(sc: &DynScenario, profile: Profile, case: &Value, f: &Failure) -> (Value, bool) {
+fn minimise(sc: &DynScenario, profile: Profile, case: &Value, f: &Failure, force_child: bool) -> (Value, bool) {
     let t0 = Instant::now();
-    let in_process = profile == Profile::current()
+    let in_process = !force_child
+        && profile == Profile::current()
         && f.oracle != "process-abort"
         && f.oracle != "wall-clock-watchdog"
         && sc.id != "C19"; // fd capture exists only in isolated workers
@@ -953,10 +970,17 @@ fn minimise(sc: &DynScenario, profile: Profile, case: &Value, f: &Failure) -> (V
     let mut obs = Obs::default();
     let mut still_fails = |v: &Value| -> bool {
         if in_process {
-            match std::panic::catch_unwind(std::panic::AssertUnwindSafe(|| {
-                (sc.exec_json)(v, &mut obs)
-            })) {
-                Ok(Ok(Err(g))) => g.oracle == f.oracle && g.class == f.class,
+            // every candidate on a thread of its own: nothing a previous
+            // candidate left in thread-local storage is seen by the next
+            let obs = &mut obs;
+            let r = std::thread::scope(|s| {
+                s.spawn(move || {
+                    std::panic::catch_unwind(std::panic::AssertUnwindSafe(|| (sc.exec_json)(v, obs)))
+                })
+                .join()
+            });
+            match r {
+                Ok(Ok(Ok(Err(g)))) => g.oracle == f.oracle && g.class == f.class,
                 _ => false,
             }
         } else {
